@@ -37,6 +37,8 @@ OPS = {
                   ["(hi : AL.get? s.nodes n = some i)", "(hk : i.kind = .junction)"], ""),
     "addFire": ("Demand", "(s : Reg) (n p : Name) (i : NodeInfo)", "addFireR s n p i",
                 ["(hi : AL.get? s.nodes n = some i)", "(hk : i.kind = .junction)"], ""),
+    "assignDemand": ("Demand", "(s : Reg) (n p : Name) (i : NodeInfo)", "assignDemandR s n p i",
+                     ["(hi : AL.get? s.nodes n = some i)", "(hk : i.kind = .junction)"], ""),
     "removeFire": ("Demand", "(s : Reg) (n p : Name) (i : NodeInfo)", "removeFireR s n p i",
                    ["(hi : AL.get? s.nodes n = some i)", "(hk : i.kind = .junction)"], ""),
     "addPipe": ("AddLink", "(s : Reg) (n a b : Name)", "addPipeR s n a b", [HN_LINK, HA, HB], ""),
@@ -207,7 +209,7 @@ def gen_all():
         if op == "addPattern":
             facts, call_cl = ["(hn : n ∉ s.patterns)"], a + " h.1"
             nodup = "%sR_nodup %s hn h.1.nodup" % (op, a)
-        elif op == "addFire":
+        elif op in ("addFire", "assignDemand"):
             call_cl = " ".join([a] + fn_ + ["h.1"])
             facts = facts + ["(hp : p ∉ s.patterns)"]
             nodup = "%sR_nodup %s hp h.1.nodup" % (op, a)
